@@ -305,7 +305,7 @@ func paramSeed(fn *ssa.Function, p *ssa.Parameter) (uval, bool) {
 		return uval{}, false
 	}
 	switch fn.Object().Name() {
-	case "Contains", "SDF", "PointSDF", "NormalSDF", "FaceSDF", "MetaballField":
+	case "Contains", "SDF", "PointSDF", "NormalSDF", "FaceSDF", "BarycentricSDF", "MetaballField", "Dist", "Closest":
 		if isCoordType(p.Type()) {
 			return known(dimL, kPoint), true
 		}
@@ -578,9 +578,15 @@ func (e *unitsEngine) addrValue(addr ssa.Value) uval {
 			}
 		case *ssa.UnOp, *ssa.DebugRef:
 		default:
-			// address escapes (passed to a call): unknown
-			if _, isCall := ref.(ssa.CallInstruction); isCall {
-				return uval{}
+			// the address is handed to a call: what the callee stores through
+			// that pointer parameter (an out-parameter); unknown callees: unknown
+			if ci, isCall := ref.(ssa.CallInstruction); isCall {
+				u, ok := e.outParamValue(ci, al)
+				if !ok {
+					return uval{}
+				}
+				res = joinU(res, u)
+				any = true
 			}
 		}
 	}
@@ -588,6 +594,38 @@ func (e *unitsEngine) addrValue(addr ssa.Value) uval {
 		return uval{st: uPoly} // zero value
 	}
 	return res
+}
+
+// outParamValue: the dimension a statically known repository callee stores
+// through the pointer parameter that receives addr (joined over its stores;
+// parameters merely passed on to a recursive call are ignored).
+func (e *unitsEngine) outParamValue(ci ssa.CallInstruction, addr ssa.Value) (uval, bool) {
+	f := ci.Common().StaticCallee()
+	if f == nil || f.Blocks == nil || !(strings.HasPrefix(pkgPathOf(f), repoMod) || strings.HasPrefix(pkgPathOf(f), "verif/fixtures")) {
+		return uval{}, false
+	}
+	res := uval{st: uPoly}
+	found := false
+	for i, a := range ci.Common().Args {
+		if a != addr || i >= len(f.Params) {
+			continue
+		}
+		p := f.Params[i]
+		for _, ref := range *p.Referrers() {
+			switch r := ref.(type) {
+			case *ssa.Store:
+				if r.Addr == ssa.Value(p) {
+					sub := &unitsEngine{c: e.c, fn: f, memo: map[ssa.Value]uval{}, inProg: map[ssa.Value]bool{}, reported: map[ssa.Instruction]string{}, checked: map[ssa.Instruction]bool{}, origin: map[ssa.Instruction]string{}, originOK: map[ssa.Instruction]bool{}}
+					res = joinU(res, sub.val(r.Val))
+					found = true
+				}
+			}
+		}
+	}
+	if !found {
+		return uval{}, false
+	}
+	return res, true
 }
 
 func (e *unitsEngine) binop(x *ssa.BinOp) uval {
@@ -1044,6 +1082,16 @@ func (c *Ctx) runUnits(rule string, pkgs []*packages.Package, filter func(fn *ss
 			// U.RET: all returns of a result agree on its dimension
 			nres := fn.Signature.Results().Len()
 			firstRet := make([]uval, nres)
+			// the distance result of the SDF family is a length, whatever the
+			// body computes (seeded like its call sites are)
+			if fn.Signature.Recv() != nil && fn.Object() != nil {
+				switch fn.Object().Name() {
+				case "SDF", "PointSDF", "NormalSDF", "FaceSDF", "BarycentricSDF":
+					if last := nres - 1; last >= 0 && isFloat(fn.Signature.Results().At(last).Type()) {
+						firstRet[last] = known(dimL, kScalar)
+					}
+				}
+			}
 			for _, b := range fn.Blocks {
 				for _, ins := range b.Instrs {
 					ret, ok := ins.(*ssa.Return)
